@@ -287,12 +287,15 @@ n_str = len(c08.STR) + 1
 others = sum(len(c08.FAMS[f].values) for f in c08.FAM_ORDER if f != "str")
 n_int = len(c08.INT) + 1
 per_style = (
-    9 * (n_str + others)  # the nine positions open to every family and every value
+    11 * (n_str + others)  # the eleven positions open to every family and every value (incl. merge_ins, merge_upd)
+    + (n_str - 1 + others - 1)  # merge_on: every family, without the NULL of str and int
     + (n_str - 1 + n_int - 1)  # inlist: str + int without NULL ...
     + 2 * n_str  # like_pat, like_subj: strings only
     + (len([s for s in c08.STR if s in c08.STR_BREAKERS]) + 1 + others)  # sessvar_pct: breaker strings, NULL, all others
 )
-check("grid size", grid_cases, 4 * per_style - (n_str - 1 + n_int - 1))  # ... and inlist not under qmark
+# ... and inlist not under qmark; + the four OPT_POS positions over all strings again on every non-default instance
+n_opts = len([o for o in c08.INSTANCE_OPTS if o is not None])
+check("grid size", grid_cases, 4 * per_style - (n_str - 1 + n_int - 1) + n_opts * 4 * len(c08.OPT_POS) * n_str)
 check("pairs items", len([it for it in items if it[0] == "pairs"]), 4 * 2 * len(c08.STR))
 check("executemany items", len([it for it in items if it[0] == "many"]), 4 * 2 * 9 * 3)
 check("paramstyle items", len([it for it in items if it[0] == "pstyle"]), 3 * 3 * 2)
@@ -344,7 +347,7 @@ check("var statement dict", (c08.VSTMT["P_sel"](b, "x"), b.params()), ("select $
 b = c08.Binder("qmark")
 check("var statement qmark", (c08.VSTMT["P_ins"](b, 7), b.params()), ("insert into tp (a, b) values ($v, ?)", (7,)))
 check("var histories quick = all ordered pairs of 3 kinds", sorted(c08.var_histories("quick")), sorted((a, b) for a in c08.VSTMT_QUICK for b in c08.VSTMT_QUICK))  # fmt: skip
-check("var histories thorough", len(c08.var_histories("thorough")), 16 + 27)
+check("var histories thorough", len(c08.var_histories("thorough")), len(c08.VSTMT_ALL) ** 2 + len(c08.VSTMT_QUICK) ** 3)
 vals = [v for _, v in c08.VARVALS]
 check("variable values unique", len(vals), len(set(map(repr, vals))))
 for needed in ("%", "%%", "%s", "%(x)s", "%(p)s", "?", ":1", "it's", "a\\b", "$x"):
